@@ -199,6 +199,12 @@ def check(case):
             return res
     # the same Model / interface is used again (a plain deterministic call): its first row is still the initial
     # condition - whatever mode ran before must not have touched the model's initial state
+    if any(rl.get("dest") == "qt" for rl in sp.get("rules", [])):
+        # a parameter written by a time-reading rule keeps its last value in the model's parameter array (a rule's target
+        # is state of the model, shared with its interfaces); a species rule listed before it reads that value at the
+        # start of the next run, so "the initial condition" of a second run is not defined by the declaration alone
+        res.label("next_simulation_not_compared:parameter_rule_after_reader")
+        return res
     again = {k: v for k, v in kwargs.items() if k in ("Model", "Interface")}
     with specmod.quiet():
         out2 = py_simulate_model(tp[:2], return_dataframe=False, **again)
@@ -251,13 +257,26 @@ def models(draw, flags=None):
     if with_rule:
         srcs = draw(st.lists(st.sampled_from(dyn), min_size=1, max_size=2, unique=True))
         tree = ["add"] + [gen.sym(s) for s in srcs] + [gen.num(draw(st.sampled_from([0.0, 1.0, 2.5])))]
-        if draw(st.integers(0, 2)) == 0:
+        later = None
+        prule = draw(st.integers(0, 3))
+        if prule == 0:
             # a rule that assigns a parameter (reading the volume) ahead of the species rule that reads that parameter
             b.params["qv"] = 0.5
             ptree = ["add", ["mul", gen.num(2.0), ["vol"]], gen.num(1.0)]
             b.rules.append({"type": "assignment", "eq": f"qv = {ref.show(ptree)}", "freq": "repeated", "tree": ptree,
                             "dest": "qv"})
             tree.append(gen.sym("qv"))
+        elif prule in (1, 2):
+            # a rule that assigns a parameter from the time, listed AFTER the species rule that reads that parameter: in
+            # row 0 the species rule sees the declared value, which equals the rule's value at t = 0 (so the row is the
+            # same whichever of the two the simulator holds at that moment) - not a value left over from a later time
+            if prule == 2:
+                for i_ in range(len(species)):          # declared, unused: the model has more parameters than species
+                    b.params[f"pad{i_}"] = 1.0 + i_
+            b.params["qt"] = 3.0
+            ptree = ["mul", gen.num(2.0), ["add", ["t"], gen.num(1.5)]]
+            later = {"type": "assignment", "eq": f"qt = {ref.show(ptree)}", "freq": "repeated", "tree": ptree, "dest": "qt"}
+            tree.append(gen.sym("qt"))
         extra = draw(st.sampled_from(["none", "time", "volume", "both"]))
         if extra in ("time", "both"):          # the rule also reads the time ...
             tree.append(["mul", gen.num(2.0), ["add", ["t"], gen.num(1.5)]])
@@ -265,6 +284,8 @@ def models(draw, flags=None):
             tree.append(["mul", gen.num(3.0), ["vol"]])
         b.rules.append({"type": "assignment", "eq": f"{tot} = {ref.show(tree)}",
                         "freq": draw(st.sampled_from(["repeated", "repeated", "dt"])), "tree": tree, "dest": tot})
+        if later is not None:
+            b.rules.append(later)
     sp = b.spec(x0)
     sp["state_route"] = draw(st.sampled_from(["model", "model", "int_array", "reused_buffer"]))
     sp["grid_layout"] = draw(st.sampled_from(["contiguous", "contiguous", "strided", "column"]))
